@@ -9,6 +9,7 @@ import z3
 
 from .path import Path
 from .sym import (
+    SMemView,
     DeadPath,
     PyRaise,
     SBool,
@@ -41,7 +42,7 @@ def raise_py(cls: type, *args: Any) -> None:
 
 def has_sym(v: Any, depth: int = 0) -> bool:
     """True if a symbolic leaf is reachable from v."""
-    if isinstance(v, (Sym, SObj, SByteArray)):
+    if isinstance(v, (Sym, SObj, SByteArray, SMemView)):
         return True
     if depth > 6:
         return False
@@ -741,8 +742,13 @@ def eq_term(p: Path, a: Any, b: Any) -> Any:
         if isinstance(a, SObj) and isinstance(b, SObj):
             if a is b:
                 return True
+            if getattr(a.cls, "__eq__", None) is object.__eq__ and getattr(b.cls, "__eq__", None) is object.__eq__:
+                return False  # identity semantics (distinct symbolic objects are distinct heap objects)
             raise Unsupported("== between distinct symbolic objects (needs __eq__ contract)")
-        return False
+        so = a if isinstance(a, SObj) else b
+        if getattr(so.cls, "__eq__", None) is object.__eq__:
+            return False
+        raise Unsupported("== between a symbolic object with __eq__ and another value")
     ka = "int" if is_int_like(a) else "bytes" if is_bytes_like(a) else type(a).__name__
     kb = "int" if is_int_like(b) else "bytes" if is_bytes_like(b) else type(b).__name__
     if ka != kb:
